@@ -1671,6 +1671,81 @@ def rule_r13(chk, p, t, rid="C04.R13"):
     r.guard(fn.qualname, one)
 
 
+def rule_r14(chk, p, t, rid="C04.R14"):
+    r = chk.rule(
+        rid,
+        "Earth-orientation values are the day's tabulated record",
+        3,
+        "UT1-UTC is tabulated per UTC day and jumps by one second where a leap second is inserted; the rotation angle is "
+        "continuous only because the table value of the *day* is used together with the day's own dAT.  Every builder of "
+        "reduction parameters asks for the record of `utc_date.date()`, the module-level getter hands that key to the "
+        "loader unchanged, and the loader returns - on every normal path - the record its table holds for exactly that "
+        "key (`self._eop_data.get(key)` / `[key]`), never a value constructed from the records of several days (an "
+        "interpolation ramps through the leap-second jump of UT1-UTC: the Earth-fixed frame then turns 1/86400 too fast "
+        "all day and the jump at the leap second disappears)",
+        "the table's contents",
+    )
+    EOPS = "resonaate.physics.transforms.eops"
+    red = p.module("resonaate.physics.transforms.reductions")
+    n_calls = 0
+    for fi in list(red.functions.values()) + [m for c in red.classes.values() for m in c.methods.values()]:
+        for c in find_calls(fi.node, "getEarthOrientationParameters"):
+            n_calls += 1
+            a0 = c.args[0] if c.args else None
+            dt_params = [q for q in fi.params if q not in ("self", "cls")]
+            ok = isinstance(a0, ast.Call) and isinstance(a0.func, ast.Attribute) and a0.func.attr == "date" and not a0.args and isinstance(a0.func.value, ast.Name) and a0.func.value.id in dt_params
+            if ok:
+                r.ok(f"{fi.qualname}:eop-key", f"record of `{unparse(a0)}`", fi.loc(c))
+            else:
+                r.violation(fi.qualname, f"eop-key:{unparse(a0)[:40] if a0 is not None else None}", f"{fi.name} asks for the Earth-orientation values of `{unparse(a0) if a0 is not None else None}`, not of the UTC calendar day `<utc datetime>.date()` the table is keyed by", fi.loc(c))
+    if n_calls == 0:
+        r.error("eop-key", "no call of getEarthOrientationParameters found in physics.transforms.reductions")
+    getter = p.func(f"{EOPS}.getter.getEarthOrientationParameters")
+
+    def g():
+        rets = [n for n in walk_no_nested(getter.node) if isinstance(n, ast.Return) and n.value is not None]
+        require(len(rets) == 1, "getter: single return expected", getter.node)
+        v = inline_locals(getter, rets[0].value)
+        key = getter.params[0]
+        if isinstance(v, ast.Call) and isinstance(v.func, ast.Attribute) and v.func.attr == "getEarthOrientationParameters" and [unparse(a) for a in v.args] == [key] and not v.keywords:
+            r.ok(getter.qualname, f"loader.getEarthOrientationParameters({key})", getter.loc(rets[0]))
+        else:
+            r.violation(getter.qualname, f"eop-getter:{unparse(v)[:50]}", f"the getter returns `{unparse(v)[:80]}`, not the loader's record for its own key", getter.loc(rets[0]))
+
+    r.guard(getter.qualname, g)
+    base = p.cls(f"{EOPS}.loaders.EOPLoader")
+    for ci in [base] + list(p.subclasses(base)):
+        m = ci.methods.get("getEarthOrientationParameters")
+        if m is None:
+            continue
+
+        def l(m=m, ci=ci):
+            key = m.params[1]
+            rets = [n for n in walk_no_nested(m.node) if isinstance(n, ast.Return) and n.value is not None]
+            require(rets, "loader getter has no return", m.node)
+            lookups = set()
+            for n in walk_no_nested(m.node):
+                if isinstance(n, ast.Assign) and len(n.targets) == 1 and isinstance(n.targets[0], ast.Name):
+                    v = n.value
+                    is_lookup = (isinstance(v, ast.Call) and isinstance(v.func, ast.Attribute) and v.func.attr == "get" and unparse(v.func.value).startswith("self._eop") and v.args and unparse(v.args[0]) == key) or (
+                        isinstance(v, ast.Subscript) and unparse(v.value).startswith("self._eop") and unparse(v.slice) == key
+                    )
+                    if is_lookup:
+                        lookups.add(n.targets[0].id)
+            bad = []
+            for rt in rets:
+                v = rt.value
+                direct = (isinstance(v, ast.Subscript) and unparse(v.value).startswith("self._eop") and unparse(v.slice) == key) or (isinstance(v, ast.Call) and isinstance(v.func, ast.Attribute) and v.func.attr == "get" and unparse(v.func.value).startswith("self._eop") and v.args and unparse(v.args[0]) == key)
+                if not direct and not (isinstance(v, ast.Name) and v.id in lookups and sum(1 for a in walk_no_nested(m.node) if isinstance(a, (ast.Assign, ast.AugAssign)) and any(isinstance(x, ast.Name) and x.id == v.id and isinstance(x.ctx, ast.Store) for x in ast.walk(a))) == 1):
+                    bad.append(f"`return {unparse(v)[:70]}` (line {rt.lineno})")
+            if bad:
+                r.violation(m.qualname, "eop-record:" + ";".join(b[:40] for b in bad), f"{ci.name}.getEarthOrientationParameters can return something else than the table record of the requested day: " + "; ".join(bad) + " - values combined across days smear the leap-second jump of UT1-UTC", m.loc())
+            else:
+                r.ok(m.qualname, f"returns the table record of `{key}` on {len(rets)} return(s)", m.loc())
+
+        r.guard(m.qualname, l)
+
+
 def run(chk, p, t):
     chk.explanation = (
         "Static decision of structural necessary conditions of C04 by normal forms of rotation chains and matrix "
@@ -1682,7 +1757,7 @@ def run(chk, p, t):
         "geodetic closed form."
     )
     chk.assumptions += ["numpy matmul / dot / multi_dot are matrix products; .T is the transpose", "passive rotation convention of Vallado eq. 3-15 (cited by the module)"]
-    for fn in (rule_r1, rule_r2, rule_r3, rule_r4, rule_r5, rule_r6, rule_r7, rule_r8, rule_r9, rule_r10, rule_r11, rule_r12, rule_r13):
+    for fn in (rule_r1, rule_r2, rule_r3, rule_r4, rule_r5, rule_r6, rule_r7, rule_r8, rule_r9, rule_r10, rule_r11, rule_r12, rule_r13, rule_r14):
         rid = "C04.R" + fn.__name__.split("_r")[-1]
         if not chk.wants(rid):
             continue
